@@ -81,6 +81,9 @@ pub mod phase {
             "panic" => panic!("WILD_VERIF injected panic"),
             "abort" => std::process::abort(),
             "segv" => unsafe {
+                // The Rust runtime installs a SIGSEGV handler (stack overflow detection) that
+                // would swallow a raised signal.
+                libc::signal(libc::SIGSEGV, libc::SIG_DFL);
                 libc::raise(libc::SIGSEGV);
             },
             "kill9" => unsafe {
